@@ -224,6 +224,9 @@ func (p *Path) prim(fn *ssa.Function, args []Value) Value {
 		return p.concretizeStr(args[0])
 	case "vXMLScript":
 		return Iface{T: p.w.eng.namedType("io", "Reader"), V: &Native{V: &xmlScript{events: concreteString(args[0], "xml event script")}}}
+	case "vJSONText":
+		p.jsonText = true
+		return nil
 	case "vSchedules":
 		if p.sched != nil {
 			panic(unsupported("vSchedules must be called before the first goroutine / channel is created"))
